@@ -148,18 +148,24 @@ Lemma dropN_len_app {A} (a b : list A) : dropN (len a) (a ++ b) = b.
 Proof. unfold dropN, len. rewrite Nat2N.id. apply skipn_app_exact. Qed.
 
 (* ---- compact transport of large byte strings between the harness and the model ----
-   pattern bytes (inputs) and a two-multiplier polynomial digest (mod 2^48) (observations); used only by the
+   pattern bytes (inputs) and a Fletcher-style checksum (two 32-bit accumulators) (observations); used only by the
    correspondence evaluation, never in theorems. *)
-Definition pat_byte (seed i : N) : N := (seed + 31 * i + i / 256) mod 256.
-Fixpoint pat_from (n : nat) (seed i : N) : bytes :=
-  match n with O => [] | S k => pat_byte seed i :: pat_from k seed (i + 1) end.
-Definition pattern (n seed : N) : bytes := pat_from (N.to_nat n) seed 0.
+(* byte i of the pattern is (seed + 31*i + i/256) mod 256; generated incrementally (no division) *)
+Fixpoint pat_from (n : nat) (v c : N) : bytes :=
+  match n with
+  | O => []
+  | S k => let wrap := c =? 255 in
+           let v1 := v + (if wrap then 32 else 31) in
+           v :: pat_from k (if 256 <=? v1 then v1 - 256 else v1) (if wrap then 0 else c + 1)
+  end.
+Definition pattern (n seed : N) : bytes := pat_from (N.to_nat n) (seed mod 256) 0.
 
-Definition DIGM : N := 281474976710655.   (* 2^48 - 1, used as a mask *)
+Definition DIGM : N := 4294967295.   (* 2^32 - 1, used as a mask *)
+(* Fletcher-style checksum with two 32-bit accumulators (additions and masks only: cheap under vm_compute) *)
 Definition digest (l : bytes) : N :=
-  let h1 := fold_left (fun h b => N.land (h * 257 + b + 1) DIGM) l 0 in
-  let h2 := fold_left (fun h b => N.land (h * 263 + b + 1) DIGM) l 0 in
-  h1 * 281474976710656 + h2.
+  let '(s1, s2) := fold_left (fun '(s1, s2) b => let s1' := N.land (s1 + b + 1) DIGM in
+                                                (s1', N.land (s2 + s1') DIGM)) l (0, 0) in
+  s2 * 4294967296 + s1.
 (* an observation is either the bytes themselves or [256; length; digest] (256 is not a byte) *)
 Definition bytes_match (m o : bytes) : bool :=
   match o with
